@@ -24,15 +24,6 @@ From HV Require Export Base.Prelude Base.Locks C07.Model C07.Sched Run.Eval_C07.
 
 Record scase := { sc_base : case; sc_items : list item; sc_deadlock : bool; sc_crash : bool; sc_threads : nat }.
 
-Definition cfg0 : cfg unit unit :=
-  {| c_lk := fun _ => LShared []; c_val := fun _ => tt; c_ptr := fun p => Nat.min p 15; c_heap := fun _ => tt;
-     c_next := 16; c_thr := fun _ => None |}.
-
-Lemma cfg0_initial : initial cfg0.
-Proof. repeat split; simpl; intros; lia. Qed.
-
-Definition wf1 : op unit -> nat -> list unit -> unit := fun _ _ _ => tt.
-
 Definition err_code (e : rerr) : list Z :=
   match e with
   | RNoPath t m => [101; Z.of_nat t; Z.of_nat m]
